@@ -58,6 +58,9 @@ type ViewSpec struct {
 	Agg    int      `json:"agg,omitempty"` // 0 nil, 1 default, 2 drop, 3 sum, 4 last value, 5 histogram, 6 exponential histogram
 	Filter bool     `json:"flt,omitempty"`
 	Deny   bool     `json:"deny,omitempty"` // Keys is a deny-list (NewDenyKeysFilter) instead of an allow-list
+	FKind  int      `json:"fk,omitempty"`   // 0 = by key (Keys), 1 = by value (Vals: encoded values such as "s", "i2", "b0"), 2 = by (key, value) pair (Pairs)
+	Vals   []string `json:"vals,omitempty"`
+	Pairs  []KV     `json:"pairs,omitempty"`
 	Keys   []string `json:"keys,omitempty"`
 }
 
@@ -138,6 +141,22 @@ func mkKV(x KV) attribute.KeyValue {
 	default:
 		return attribute.String(x.K, x.V)
 	}
+}
+
+// encVal is the model's encoding of an attribute value: a type tag (b, i, s) followed by the value.
+func encVal(kv attribute.KeyValue) string {
+	switch kv.Value.Type() {
+	case attribute.BOOL:
+		if kv.Value.AsBool() {
+			return "b1"
+		}
+		return "b0"
+	case attribute.INT64:
+		return "i" + strconv.FormatInt(kv.Value.AsInt64(), 10)
+	case attribute.STRING:
+		return "s" + kv.Value.AsString()
+	}
+	return "?" + kv.Value.Emit()
 }
 
 func canonSet(s attribute.Set) []KV {
@@ -345,9 +364,27 @@ func runScenario(sc Scenario) (res Result) {
 			for i, k := range v.Keys {
 				keys[i] = attribute.Key(k)
 			}
-			if v.Deny {
+			v := v
+			switch {
+			case v.FKind == 1: // a hand-written filter that looks at the VALUE
+				st.AttributeFilter = func(kv attribute.KeyValue) bool {
+					in := false
+					for _, x := range v.Vals {
+						in = in || x == encVal(kv)
+					}
+					return in != v.Deny
+				}
+			case v.FKind == 2: // ... or at the (key, value) pair
+				st.AttributeFilter = func(kv attribute.KeyValue) bool {
+					in := false
+					for _, x := range v.Pairs {
+						in = in || (x.K == string(kv.Key) && x.T+x.V == encVal(kv))
+					}
+					return in != v.Deny
+				}
+			case v.Deny:
 				st.AttributeFilter = attribute.NewDenyKeysFilter(keys...)
-			} else {
+			default:
 				st.AttributeFilter = attribute.NewAllowKeysFilter(keys...)
 			}
 		}
@@ -1182,6 +1219,17 @@ func genViews(r *vgen.Rand, insts []InstSpec) []ViewSpec {
 			v.Filter = true
 			v.Keys = genKeys(r)
 			v.Deny = r.Chance(1, 3)
+			switch r.Intn(6) {
+			case 0: // by value: e.g. drop empty strings, keep only small ints, keep only true
+				v.FKind = 1
+				v.Vals = vgen.Pick(r, [][]string{{"s"}, {"i0", "i1", "i2"}, {"b1"}, {"sx", "sy"}, {"i3", "strue", "b0"}, {}})
+			case 1: // by (key, value) pair
+				v.FKind = 2
+				for n := 1 + r.Intn(3); n > 0; n-- {
+					t, val := genValue(r)
+					v.Pairs = append(v.Pairs, KV{keyPool[r.Intn(4)], t, val})
+				}
+			}
 		}
 		if strings.ContainsAny(v.CName, "*?") && r.Chance(3, 4) {
 			v.MName = "" // keep most wildcard views usable (a wildcard view with a name is refused)
@@ -1440,6 +1488,19 @@ func corpus() []Scenario {
 				Note: "reader aggregation selector, default views only; a second reader with the default selector"})
 		}
 	}
+	// value-dependent attribute filters: the same key with values the filter classifies differently, in both orders
+	valPool := [][]KV{{{"t", "s", ""}, {"a", "i", "1"}}, {{"t", "s", "x"}, {"a", "i", "1"}}, {{"t", "s", "x"}, {"a", "i", "5"}}, {{"t", "s", ""}, {"a", "i", "5"}}}
+	for _, ord := range [][]int{{0, 1, 2, 3, -1, 3, 2, 1, 0, -1}, {1, 0, 3, 2, -1, 2, 0, -1}} {
+		for _, vw := range []ViewSpec{
+			{CName: "req", Filter: true, FKind: 1, Deny: true, Vals: []string{"s"}},
+			{CName: "req", Filter: true, FKind: 1, Vals: []string{"i1", "sx"}},
+			{CName: "req", Filter: true, FKind: 2, Pairs: []KV{{"t", "s", "x"}, {"a", "i", "5"}}},
+			{CName: "req", Filter: true, FKind: 2, Deny: true, Pairs: []KV{{"t", "s", ""}}},
+		} {
+			out = append(out, Scenario{L: 3, Env: "3", TMask: 0xfe, Insts: counter, Views: []ViewSpec{vw}, Pool: valPool, Events: meas(ord...),
+				Note: "attribute filter that depends on the attribute value"})
+		}
+	}
 	// audit round: other spellings / entry points of the same operations
 	base := []Event{{I: 0, A: 0, V: 1}, {I: 1, A: 1, V: 2}, {I: 0, A: 2, V: 4}, {I: 1, A: 0, V: 8}, {I: 0, A: 3, V: 16}, {Collect: true},
 		{I: 1, A: 3, V: 32}, {I: 0, A: 1, V: 64}, {Collect: true}, {I: 1, A: 2, V: 3}, {Collect: true}}
@@ -1587,7 +1648,18 @@ func caseTerm(sc Scenario, res Result, tmask uint64, rsel []int, observed [][]Me
 	for _, v := range sc.Views {
 		f := vgen.None
 		if v.Filter {
-			f = vgen.Some(vgen.Pair(vgen.Bool(v.Deny), strList(v.Keys)))
+			switch v.FKind {
+			case 1:
+				f = vgen.Some(vgen.App("fvals", vgen.Bool(v.Deny), strList(v.Vals)))
+			case 2:
+				var ps []string
+				for _, x := range v.Pairs {
+					ps = append(ps, kvCoq(x))
+				}
+				f = vgen.Some(vgen.App("fpairs", vgen.Bool(v.Deny), vgen.List(ps)))
+			default:
+				f = vgen.Some(vgen.App("fkeys", vgen.Bool(v.Deny), strList(v.Keys)))
+			}
 		}
 		views = append(views, vgen.App("mkview", vgen.HxS(v.CName), vgen.HxS(v.CDesc), vgen.N(uint64(v.CKind)), vgen.HxS(v.CUnit),
 			vgen.HxS(v.CSName), vgen.HxS(v.CSVer), vgen.HxS(v.CSURL), vgen.HxS(v.MName), vgen.HxS(v.MDesc), vgen.HxS(v.MUnit), vgen.N(uint64(v.Agg)), f))
